@@ -440,10 +440,10 @@ def run(prop, tier, seed):
             # ACCOUNTS ARRIVING WHILE BATCHES RUN: four accounts created at run time (they live in the fetcher's run-time tables), then
             # twelve sequential clients send generic batches BY PUBLIC KEY over rotated and reversed selections of the two start-up and
             # the four run-time accounts while a stream of further accounts keeps being created through the process service
-            for ai in range(2 if tier == "quick" else 10):
+            for ai in range(3 if tier == "quick" else 12):
                 pops = []
-                for lane in range(1, 13):
-                    for j in range(10):
+                for lane in range(1, 17):
+                    for j in range(30):
                         ks = [(lane + j + x) % 6 for x in range(2 + (lane + j) % 3)]
                         if (lane + j) % 2:
                             ks.reverse()
